@@ -70,7 +70,10 @@ def gen_cases(rng, tier):
         ents = m.get(key) or []
         if ents:
           ents[-1][-1] = spec.gen_nested_same_start(rng)[0]
-    cases.append({"model": m, "styles": [rng.randrange(1 << 30) for _ in range(3)], "rseed": rng.randrange(1 << 30)})
+    shared = 0
+    if i % 5 == 3:
+      shared = spec.share_leading_range(rng, m)
+    cases.append({"model": m, "styles": [rng.randrange(1 << 30) for _ in range(3)], "rseed": rng.randrange(1 << 30), "shared_leading_range": shared})
   return cases
 
 
@@ -141,6 +144,8 @@ def run_case(case, ctx):
   rng = random.Random(case["rseed"])
   M = R.Model(m["forms"], m["tables"])
   ctx.cls("model:" + m["type"])
+  if case.get("shared_leading_range"):
+    ctx.cls("entries_sharing_their_leading_range")
   texts = [emit.model_text(m)] + [emit.model_text(m, emit.Style(random.Random(s))) for s in case["styles"]]
   tabs, outs = [], []
   try:
